@@ -13,8 +13,10 @@
    the faithful model: see the [..._refuted] theorems (witness + free-jet evaluation), each confirmed on the
    real code by the check.  The model follows /repo after the repairs e4bcf21 (Div keeps the coefficient),
    bbebe2f (general power rule in Grad), 72e9968 (Convect pulls only constants out of its 2nd argument),
-   f9bc83f (Laplace product rule only for two scalar factors), b4ccdef (_is_sympde_atom): the former
-   refutations of those arms are replaced by [..._repaired] theorems (the old witnesses, now proved right). *)
+   f9bc83f (Laplace product rule only for two scalar factors), b4ccdef (_is_sympde_atom) and the repair of the
+   interface operators (Minus / Plus multiplicative, Jump / Average keep products, Jump / Dn of constants = 0):
+   the former refutations of those arms are replaced by [..._repaired] theorems (the old witnesses, now proved
+   right); [..._before_fix] keep the old interface arms as short historical lemmas. *)
 From Coq Require Import String ZArith List Bool.
 From V Require Import Core.Terminal Core.DField Core.Classical Model.ConstructorsM Proofs.ConstructorsP Proofs.ConstructorsLinkP.
 Import ListNotations.
@@ -79,12 +81,38 @@ Theorem C02_laplace_sound : forall (S : dfield) lg d sgt fuel e r,
 Proof. exact mk_laplace_sound. Qed.
 Print Assumptions C02_laplace_sound.
 
-(* NormalDerivative (a derivation), Jump, Average, Minus, Plus (linear; products with one field only) *)
-Theorem C02_interface_sound_partial : forall (S : dfield) lg d sgt fuel o e r,
+(* NormalDerivative, Jump, Average, Minus, Plus: sums, extraction of the numeric / Constant coefficient, then
+     NormalDerivative  0 on a product of coefficients only, Leibniz rule on the other factors (a derivation)
+     Jump / Average    Jump of coefficients only = 0 (Average: the coefficient); a product of several functions is
+                       NOT rewritten (neither a derivation nor multiplicative)
+     Minus / Plus      multiplicative: minus(c f g) = c minus(f) minus(g), any number of factors;
+                       minus(Dn(u)) = Dot(Grad(minus(u)), minus(n)), minus(n), minus(0) = 0
+   No exclusion of products or constants is left.  iface_guard only says: the factors of a product under
+   NormalDerivative are scalars (typing), and minus(Dn(u)) / plus(Dn(u)) is covered for u a scalar function.
+   2 <> 0 is only used by Average. *)
+Theorem C02_interface_sound : forall (S : dfield) lg d sgt fuel o e r,
   iface_op o = true -> mk_iface d sgt fuel o e = Ok r -> gdf S lg d e -> iface_guard d o e = true ->
   num S 2 <> f0 S -> geq S lg d r (G1 o e).
 Proof. exact mk_iface_sound. Qed.
-Print Assumptions C02_interface_sound_partial.
+Print Assumptions C02_interface_sound.
+
+(* Jump and Average: no guard at all *)
+Theorem C02_jump_avg_sound : forall (S : dfield) lg d sgt fuel o e r,
+  o = OJump \/ o = OAvg -> mk_iface d sgt fuel o e = Ok r -> gdf S lg d e ->
+  num S 2 <> f0 S -> geq S lg d r (G1 o e).
+Proof. exact mk_jump_avg_sound. Qed.
+Print Assumptions C02_jump_avg_sound.
+
+(* what the guard still asks: nothing for Jump / Average; for Minus / Plus nothing on an argument whose sums and
+   products contain no NormalDerivative application [dn_free] (otherwise: u a scalar function in minus(Dn(u))) *)
+Theorem C02_interface_guard_jump_avg : forall d o e, o = OJump \/ o = OAvg -> iface_guard d o e = true.
+Proof. exact iface_guard_jump_avg. Qed.
+Print Assumptions C02_interface_guard_jump_avg.
+
+Theorem C02_interface_guard_minus_plus : forall d o e,
+  o = OMinus \/ o = OPlus -> dn_free e = true -> iface_guard d o e = true.
+Proof. exact iface_guard_side_dn_free. Qed.
+Print Assumptions C02_interface_guard_minus_plus.
 
 (* what Grad / Curl return is well-formed (commutative members of sums and products are scalars), so that it
    can be passed on to Dot by Div.eval / Laplace.eval *)
@@ -162,21 +190,42 @@ Theorem C02_bilinear_refuted_commutative_vector :
 Proof. exact mk_bil_refuted_commutative_vector. Qed.
 Print Assumptions C02_bilinear_refuted_commutative_vector.
 
-Theorem C02_interface_refuted_product : forall o,
+(* repaired interface operators: the former counter-examples (and a three-factor product with a coefficient and a
+   vector factor) are inside the guard; the kernel proves per witness that the result has the meaning of the literal *)
+Theorem C02_interface_product_repaired : forall o,
   o = OJump \/ o = OAvg \/ o = OMinus \/ o = OPlus ->
-  let e := GMul [GSF "f"; GSF "g"] in
-  iface_guard 2 o e = false /\ exists r, mk_iface 2 str_gt 50 o e = Ok r /\
-  tens_differ (gden true 2 SNone r) (gden true 2 SNone (G1 o e)) = true.
-Proof. exact mk_iface_refuted_product. Qed.
-Print Assumptions C02_interface_refuted_product.
+  (let e := GMul [GSF "f"; GSF "g"] in
+   iface_guard 2 o e = true /\ exists r, mk_iface 2 str_gt 50 o e = Ok r /\
+   cmp (gden true 2 SNone r) (gden true 2 SNone (G1 o e)) = 0) /\
+  (let e := GMul [gint 2; GSF "f"; GSF "g"; GVF "F"] in
+   iface_guard 2 o e = true /\ exists r, mk_iface 2 str_gt 50 o e = Ok r /\
+   cmp (gden true 2 SNone r) (gden true 2 SNone (G1 o e)) = 0).
+Proof. exact mk_iface_repaired_product. Qed.
+Print Assumptions C02_interface_product_repaired.
 
-Theorem C02_interface_refuted_constant : forall o,
+Theorem C02_interface_constant_repaired : forall o,
   o = OJump \/ o = ODn ->
   let e := GMul [gint 2; GConst "alpha"] in
-  iface_guard 2 o e = false /\ mk_iface 2 str_gt 50 o e = Ok e /\
+  iface_guard 2 o e = true /\ mk_iface 2 str_gt 50 o e = Ok gzero /\
+  cmp (gden true 2 SNone gzero) (gden true 2 SNone (G1 o e)) = 0.
+Proof. exact mk_iface_repaired_constant. Qed.
+Print Assumptions C02_interface_constant_repaired.
+
+(* historical: the arms before the repair differ from the literal in the free jet (the Leibniz rule of a derivation
+   applied by Jump / Average / Minus / Plus; a product of coefficients returned unchanged by Jump / NormalDerivative) *)
+Theorem C02_interface_product_before_fix : forall o,
+  o = OJump \/ o = OAvg \/ o = OMinus \/ o = OPlus ->
+  tens_differ (gden true 2 SNone (leibniz_arm_before_fix o (GSF "f") (GSF "g")))
+              (gden true 2 SNone (G1 o (GMul [GSF "f"; GSF "g"]))) = true.
+Proof. exact iface_product_before_fix. Qed.
+Print Assumptions C02_interface_product_before_fix.
+
+Theorem C02_interface_constant_before_fix : forall o,
+  o = OJump \/ o = ODn ->
+  let e := GMul [gint 2; GConst "alpha"] in
   tens_differ (gden true 2 SNone e) (gden true 2 SNone (G1 o e)) = true.
-Proof. exact mk_iface_refuted_constant. Qed.
-Print Assumptions C02_interface_refuted_constant.
+Proof. exact iface_constant_before_fix. Qed.
+Print Assumptions C02_interface_constant_before_fix.
 
 Theorem C02_bilinear_refusal_on_commutative_vector :
   mk_bil 3 str_gt 50 ODot (G1 OLaplace (GVF "F")) (GVF "G") = Raise /\
@@ -204,8 +253,12 @@ Example C02_nonvacuous_div_laplace_cross :
   div_guard 3 (GMul [GConst "alpha"; GSF "f"; GVF "F"]) = true /\ grad_guard 2 (GPow (GSF "f") (GSF "g")) = true /\
   pull_ok 3 (GMul [GSF "f"; GVF "F"]) = true /\
   bracket_guard 2 (GMul [GCoord 0; GSF "f"]) = true /\
-  iface_guard 2 ODn (GMul [GSF "f"; GSF "g"]) = true.
-Proof. repeat split; try reflexivity. eexists. vm_compute. reflexivity. Qed.
+  iface_guard 2 ODn (GMul [GSF "f"; GSF "g"]) = true /\
+  iface_guard 3 OMinus (GMul [GConst "alpha"; GSF "f"; GPow (GSF "g") (gint 2); GVF "F"]) = true /\
+  (exists r, mk_iface 3 str_gt 50 OMinus (GMul [GConst "alpha"; GSF "f"; GPow (GSF "g") (gint 2); GVF "F"]) = Ok r) /\
+  iface_guard 2 OPlus (GMul [GSF "g"; G1 ODn (GSF "f")]) = true /\
+  (exists r, mk_iface 2 str_gt 50 OPlus (GMul [GSF "g"; G1 ODn (GSF "f")]) = Ok r).
+Proof. repeat split; try reflexivity; eexists; vm_compute; reflexivity. Qed.
 
 Example C02_nonvacuous_power_rule :
   let e := GPow (GSF "f") (GConst "alpha") in
